@@ -38,3 +38,36 @@ func scenariosC01() []*scenario {
 }
 
 func TestVerifC01(t *testing.T) { runProperty(t, "C01", scenariosC01()) }
+
+func init() { propertyExtras["C01"] = pruneSelfCheck }
+
+// pruneSelfCheck validates the state-key pruning argument instead of assuming
+// it: the smallest scenario is explored with and without pruning and the sets of
+// terminal (outcome, violated properties) pairs must be identical. A difference
+// is an engine error, never a verdict.
+func pruneSelfCheck(t *testing.T, out *verifmc.ShardResult) {
+	sc := &scenario{name: "c01/prune-selfcheck", base: 0, opt: allOpts(), bound: 1, rounds: [][]string{{"a"}, {}}}
+	run := func(noPrune bool) (map[string]bool, verifmc.Stats) {
+		e := &verifmc.Explorer{Scenario: sc.name, Bound: sc.bound, NShards: 1, NoPrune: noPrune,
+			Run: func(prefix []int) *verifmc.ExecResult { return filterProps(runExec(t, sc, prefix), []string{"C01"}) }}
+		e.Explore()
+		return e.Terminal, e.Stats
+	}
+	pruned, ps := run(false)
+	full, fs := run(true)
+	for k := range full {
+		if !pruned[k] {
+			panic(verifmc.EngineError{Msg: "pruning self-check: terminal state reached only without pruning: " + k})
+		}
+	}
+	for k := range pruned {
+		if !full[k] {
+			panic(verifmc.EngineError{Msg: "pruning self-check: terminal state reached only with pruning: " + k})
+		}
+	}
+	if out.Extra == nil {
+		out.Extra = map[string]any{}
+	}
+	out.Extra["prune_selfcheck"] = map[string]any{"executions_pruned": ps.Executions, "executions_unpruned": fs.Executions,
+		"terminal_states": len(full), "identical": true}
+}
